@@ -29,7 +29,7 @@ import sqlalchemy.engine
 import sqlalchemy.orm
 
 P = 'C03'
-BUDGETS = {'C03': (150, 2400, 2)}
+BUDGETS = {'C03': (240, 2400, 2)}
 LEVELS = {'C03': 'fault_enumeration'}
 SHRINK = {'C03': (60, 25), 'C02': (60, 40)}
 WALL_LIMIT = {('C03', 'quick'): 240, ('C03', 'thorough'): 3000, ('C02', 'quick'): 240, ('C02', 'thorough'): 240}      # one re-execution = ~20 forked crawls
